@@ -18,6 +18,9 @@ structure UriParts where
   path : String
   query : Option String
   fragment : Option String
+  /-- `quick_xml::escape::unescape(query)` (the capability text is the raw, still escaped span);
+      `none` = no query or the references do not resolve (annotated by the harness) -/
+  queryUnesc : Option String := none
   deriving DecidableEq, Repr, Inhabited
 
 /-- `UriStr::new(s)` + component accessors; `none` = not a valid URI -/
@@ -68,16 +71,23 @@ def classifyCapability (s : String) (u : UriParts) : Capability :=
   else if plain && u.path == "ietf:params:netconf:capability:startup:1.0" then .startup
   else if u.scheme == "urn" && u.authority.isNone && u.fragment.isNone
       && u.path == "ietf:params:netconf:capability:url:1.0" && u.query.isSome then
-    .url (urlSchemes (u.query.getD ""))
+    .url (urlSchemes (u.queryUnesc.getD ""))
   else if plain && u.path == "ietf:params:netconf:capability:xpath:1.0" then .xpath
   else if u.scheme == "http" && u.authority == some "xml.juniper.net" && u.path == "/netconf/junos/1.0"
       && u.query.isNone && u.fragment.isNone then .junos
   else .unknown s
 
+def isUrlCap (u : UriParts) : Bool :=
+  u.scheme == "urn" && u.authority.isNone && u.fragment.isNone
+    && u.path == "ietf:params:netconf:capability:url:1.0" && u.query.isSome
+
 def parseCapability (o : UriOracle) (s : String) : Except Err Capability :=
   match o s with
   | none => .error .parse
-  | some u => .ok (classifyCapability s u)
+  | some u =>
+    -- the query of the :url capability is unescaped first; a reference that does not resolve is an error
+    if isUrlCap u && u.queryUnesc.isNone then .error .xml
+    else .ok (classifyCapability s u)
 
 /-- `Capabilities::read_xml` (HashSet insert = list append; consumers only test membership) -/
 def capsLoop (c : RCfg) (o : UriOracle) : (fuel : Nat) → (endRaw : String) → (acc : List Capability) → List Ev → Except Err (List Capability × List Ev)
